@@ -356,7 +356,7 @@ std::string read_props(Rd& r, PSlot slot, Props& out) {
 }
 } // namespace
 
-std::string decode_strict(const std::string& raw, Packet& out) {
+std::string decode_strict(const std::string& raw, Packet& out, bool from_server) {
     out = Packet{};
     out.raw = raw;
     if (raw.size() < 2) return "packet shorter than 2 bytes";
@@ -372,6 +372,8 @@ std::string decode_strict(const std::string& raw, Packet& out) {
         return {};
     };
     std::string e;
+    if (from_server && (out.type == CONNECT || out.type == SUBSCRIBE || out.type == UNSUBSCRIBE || out.type == PINGREQ))
+        return std::string("server sent client-only packet ") + ptype_name(out.type);
     switch (out.type) {
     case CONNECT: {
         if (!(e = need_flags(0)).empty()) return e;
@@ -408,7 +410,7 @@ std::string decode_strict(const std::string& raw, Packet& out) {
         if (out.qos) { out.pid = r.u16(); if (r.ok() && out.pid == 0) return "packet identifier 0"; }
         if (!r.ok()) return r.err;
         if (!(e = read_props(r, PSlot::publish, out.props)).empty()) return "PUBLISH properties: " + e;
-        if (find_prop(out.props, P_SUB_ID)) return "client PUBLISH carries Subscription Identifier";
+        if (!from_server && find_prop(out.props, P_SUB_ID)) return "client PUBLISH carries Subscription Identifier";
         if (out.topic.empty() && !find_prop(out.props, P_TOPIC_ALIAS)) return "empty topic without alias";
         out.payload = raw.substr(r.i, r.end - r.i); r.i = r.end;
         break;
@@ -472,8 +474,28 @@ std::string decode_strict(const std::string& raw, Packet& out) {
         break;
     }
     // packets a client must never send
-    case CONNACK: case SUBACK: case UNSUBACK: case PINGRESP:
-        return std::string("client sent server-only packet ") + ptype_name(out.type);
+    case CONNACK: case SUBACK: case UNSUBACK: case PINGRESP: {
+        if (!from_server) return std::string("client sent server-only packet ") + ptype_name(out.type);
+        if (!(e = need_flags(0)).empty()) return e;
+        if (out.type == PINGRESP) break;
+        if (out.type == CONNACK) {
+            uint8_t fl = r.u8();
+            if (fl & 0xfe) return "CONNACK reserved acknowledge flags";
+            out.session_present = fl & 1;
+            out.rc = r.u8(); out.rc_present = true;
+            if (!r.ok()) return r.err;
+            out.props_present = true;
+            if (!(e = read_props(r, PSlot::connack, out.props)).empty()) return "CONNACK properties: " + e;
+            break;
+        }
+        out.pid = r.u16();
+        if (r.ok() && out.pid == 0) return "packet identifier 0";
+        if (!r.ok()) return r.err;
+        if (!(e = read_props(r, out.type == SUBACK ? PSlot::suback : PSlot::unsuback, out.props)).empty()) return "ack properties: " + e;
+        while (r.ok() && r.left() > 0) out.rcs.push_back(r.u8());
+        if (out.rcs.empty()) return "SUBACK/UNSUBACK without reason codes";
+        break;
+    }
     default:
         return "reserved packet type 0";
     }
